@@ -19,19 +19,17 @@ kept below as examples of what the repaired code does (and are replayed first by
 namespace Qx.C10
 open Qx.C04
 
-/-! ### open finding: a white space keep-alive ends the session -/
+/-! ### a white space keep-alive changes nothing -/
 
-/-- **Defect (open, `C10:whitespace-keepalive-ends-connection`).**  RFC 6120 §4.6.1 allows white space between elements as a
-keep-alive.  `XmppSocket::processData` reports it as a null element, `handlePacketReceived` hands that to the current listener,
-every listener rejects it: in an established session the client reports an error, closes the stream and is not connected any
-more.  (The other theorems of this file hold for histories with white space too — the client stays *consistent* — but it does
-lose a healthy connection.)  Suggested fix: `fixes/C10-whitespace-keepalive.diff`. -/
-theorem C10_defect_whitespace_keepalive_ends_session :
-    ∃ (cfg : Cfg) (script : List Ev),
-      isConnected (run (init cfg) script).1 = true ∧
-      isConnected (step (run (init cfg) script).1 .recvWhitespace).1 = false ∧
-      Out.sig .error ∈ (step (run (init cfg) script).1 .recvWhitespace).2 :=
-  ⟨{ plainOk := true }, [.connectToServer, .socketConnected] ++ flowSaslBind, by decide⟩
+/-- **White space between elements (RFC 6120 §4.6.1 keep-alive) is ignored in every state**: no signal, no send, no change of
+state — in particular an established session stays established.  (Before fa23804 the null element that `XmppSocket` reports for
+it was handed to the listeners, all of which rejected it: error, stream close, disconnected —
+`C10:whitespace-keepalive-ends-connection`, former theorem `C10_defect_whitespace_keepalive_ends_session`.) -/
+theorem whitespace_keepalive_is_ignored (s : St) : step s .recvWhitespace = (s, []) := rfl
+
+/-- the former witness: a session established by the SASL + bind flow survives a keep-alive -/
+example : isConnected (run (init { plainOk := true })
+    ([.connectToServer, .socketConnected] ++ flowSaslBind ++ [.recvWhitespace])).1 = true := by decide
 
 /-! ### after the cut -/
 
